@@ -19,8 +19,9 @@ PROPS = {
                   "and, once per case, a real router advertisement is sent from the far end of the interface (raw ICMPv6) before the single-default-route check",
         rule="Tier A cases: datapath (policy, ipvlan, exclusive, vlan) x family (v4, v6, dual) x trunk x 1..4 pods with 1..2 interfaces each (MultiNetwork, exactly one carries "
              "DefaultRoute as the daemon guarantees) on 1..2 ENIs (own ENI per interface for exclusive), drawn link indexes (steps up to 70000), addresses in 4- and 16-byte form, "
-             "prefix lengths 8..32/8..128, shared or separate subnets, service CIDRs, 0..3 host-stack CIDRs, 0..3 extra routes per interface with/without gateway. "
-             "Tier B cases: policy, exclusive or ipvlan (host side) datapath, family, 1..3 pods on one ENI (exclusive: own ENI stand-in each, optionally a second interface eth1), 2..9 operations "
+             "prefix lengths 8..32/8..128, shared or separate subnets, service CIDRs, 0..3 host-stack CIDRs, 0..3 extra routes per interface with/without gateway, "
+             "per pod an ingress and an egress bandwidth limit (0 or 1 Mbit/s..1 Gbit/s) and the CNI bandwidth mode (unset/tc/edt). "
+             "Tier B cases: policy, exclusive or ipvlan (host side) datapath, family, per-pod ingress/egress bandwidth limits and bandwidth mode (only what this kernel's shapers can run, see level_note), 1..3 pods on one ENI (exclusive: own ENI stand-in each, optionally a second interface eth1), 2..9 operations "
              "setup/check/teardown in drawn order incl. teardown twice and teardown without setup, optional decoy rules (same priorities, wider prefixes containing pod addresses), "
              "TeardownCfg with/without host veth name and with the ENI index real / 0 / stale-positive. Faulty pre-states are drawn too: before Setup the host namespace may still hold "
              "stale prio-512/2048 rules for the pod's own address pointing into another interface's table, or the previous owner's veth with a host route for the pod's IPv4 /32, "
@@ -53,7 +54,10 @@ PROPS = {
                    "datapath because setupFilters rejects them); act_vlan is missing, so trunk mode is tier A only. The vlan datapath has no host-side link, "
                    "nothing is asserted for it in the host namespace. Tier A trusts the harness's FIB model and mirrors which generator each Setup applies to which link (read from the Setup bodies). "
                    "In tier B the ENI stand-in is a veth, so GenericTearDown deletes it instead of moving it back: for exclusive ENI only setup routing and removal of the host-side peer are asserted, "
-                   "not the return of the ENI. tc state (vlan tag filters, priority filters, bandwidth) is not part of the dumps. Packets are not sent; lookups decide.",
+                   "not the return of the ENI. Bandwidth limits are drawn as pod attributes in both tiers only so that the routing oracle also runs on shaped pods: the shaper itself (tbf parameters, fq/mq layout, rates) is not judged, "
+                   "tier A does not see it at all (the generators do not consume the limits). The sandbox kernel has sch_tbf and mq but no sch_fq, so the kernel tier does not run policy-route + edt + egress limit "
+                   "(ensureMQFQ fails), ipvlan + edt + any limit (ensureFQ fails) and ipvlan + tc + ingress-only (the unchanged IPvlanDriver.Setup calls SetupTC(link, 0) and fails with 'invalid rate 0'); these are dropped to "
+                   "'no limit' and counted under labels bw:dropped:*. tc state (vlan tag filters, priority filters, qdiscs) is not part of the dumps. Packets are not sent; lookups decide.",
         tests=[
             dict(unit="c13pure", test="TestVerifC13Routing", quick=20000, thorough=1000000),
             dict(unit="c13kernel", test="TestVerifC13Kernel", quick=400, thorough=5000, timeout_thorough=1500),
